@@ -63,7 +63,7 @@ def _annotation_spans(tree):
     return spans
 
 
-MUTATIONS = ["delete", "duplicate", "swap", "rename", "crosswire", "retype", "truncate", "cyclic", "token", "indent", "dedent_def"]
+MUTATIONS = ["delete", "duplicate", "swap", "rename", "crosswire", "retype", "truncate", "cyclic", "cyclic_typed", "token", "indent", "dedent_def", "semblock"]
 
 
 def mutate_once(src: str, rnd, other: str | None = None) -> tuple[str, str]:
@@ -138,6 +138,28 @@ def mutate_once(src: str, rnd, other: str | None = None) -> tuple[str, str]:
             c = rnd.choice(classes)
             lines.insert(f.lineno - 1 if not f.decorator_list else f.decorator_list[0].lineno - 1, " " * f.col_offset + "@" + c.name)
             return "\n".join(lines), "cyclic-decorator"
+    if kind == "cyclic_typed":
+        # an unresolvable cycle of plain assignments whose names are also used in type positions
+        names = [n[3] for n in _names(src) if n[3] not in KEYWORDS and n[3][0].isupper()] or ["Cyc"]
+        a = rnd.choice(names) + "_cy"
+        b = rnd.choice(names) + "_cz"
+        form = rnd.randrange(4)
+        extra = ["%s = %s" % (a, b), "%s = %s" % (b, a)]
+        if form == 0:
+            extra += ["cyv: %s" % a]
+        elif form == 1:
+            extra += ["def cyf() -> %s: ..." % b]
+        elif form == 2:
+            extra = ["from typing import List", "%s = List[%s]" % (a, b), "%s = %s" % (b, a), "cyv: %s" % a]
+        else:
+            extra += ["class CyC(%s): pass" % a, "cyv: CyC"]
+        pos = rnd.randrange(len(lines) + 1) if rnd.random() < 0.5 else len(lines)
+        return "\n".join(lines[:pos] + extra + lines[pos:]), kind
+    if kind == "semblock":
+        # a blocking error found by semantic analysis (not the parser)
+        stmt = rnd.choice(["break", "continue", "yield 1", "return 1", "nonlocal zz_q", "await zz_q"])
+        pos = rnd.randrange(len(lines) + 1)
+        return "\n".join(lines[:pos] + [stmt] + lines[pos:]), kind
     if kind == "dedent_def":
         idx = [i for i, l in enumerate(lines) if l.startswith("    ") and l.strip().startswith(("def ", "class ", "return", "x", "self"))]
         if idx:
